@@ -125,8 +125,9 @@ type timer struct {
 
 // Sim is one simulation run.
 type Sim struct {
-	cfg  Config
-	wait func()
+	cfg     Config
+	wait    func()
+	noYield int // > 0: Points do not yield (see NoYield)
 
 	mu     sync.Mutex // real mutex: task table, byGoid
 	tasks  []*Task
@@ -520,7 +521,7 @@ func Point(site int) {
 		return
 	}
 	t := s.cur
-	if t == nil {
+	if t == nil || s.noYield > 0 {
 		return
 	}
 	s.points++
@@ -535,6 +536,14 @@ func Point(site int) {
 		return
 	}
 	s.park(t, nil, "")
+}
+
+// NoYield runs f (harness code calling read-only hooks of the transformed packages from inside a task) without yielding
+// at the preemption points f passes: what f reads is one instant.
+func (s *Sim) NoYield(f func()) {
+	s.noYield++
+	defer func() { s.noYield-- }()
+	f()
 }
 
 // Woke must be called by a task right after a native channel operation that may have blocked. A
